@@ -20,7 +20,8 @@ EXPLANATION = (
     " R4 also: no pass of the composite cone loop skips the per-cone rectification for a cone type whose own rectification is not the no-op (skip condition evaluated per cone type from constant layout predicates)."
     " R4 also: for the scalar cones (zero, nonnegative) the own rectification is the no-op, so their all-zero rows stay unscaled."
     " (R9) the sparse scaling primitives the invariant relies on multiply every stored entry by l[row] r[col] (C16.R4 re-run)."
-    ' R4 also: the composite rectification has no return that bypasses its cone loop (no shortcut on cone counts or layout flags).')
+    ' R4 also: the composite rectification has no return that bypasses its cone loop (no shortcut on cone counts or layout flags).'
+    ' R4 also: the correction vector returned by the cones is applied unmodified (no clip between rectification and application).')
 ASSUMPTIONS = ['rustc MIR construction and trait resolution are correct',
                'algebra primitives (lrscale, hadamard, col_norms, clip, mean ...) have their documented meaning',
                'the mean of values inside [lo,hi] lies inside [lo,hi]']
@@ -380,6 +381,14 @@ def rectification(rep, F, tag):
                 continue
             calls = [e[2] for e in ev if e[0] == 'call']
             app = ('scale_data(self.P, self.A, self.q, self.b, Option::None, %s)' % Wv) in calls and ('hadamard(self.equilibration.e, %s)' % Wv) in calls
+            if app:
+                # the correction is applied as the cones returned it: a clip (or any other in-place change) between the rectification and its application
+                # breaks the uniformity the cones have just established (mean(e)/e_i legitimately lies in [min/max, max/min])
+                i0 = max(i for i, c_ in enumerate(calls) if c_.startswith('rectify_equilibration('))
+                i1 = calls.index('hadamard(self.equilibration.e, %s)' % Wv)
+                i2 = calls.index('scale_data(self.P, self.A, self.q, self.b, Option::None, %s)' % Wv)
+                between = [c_ for c_ in calls[i0 + 1:max(i1, i2)] if '(' in c_ and c_.endswith(')') and split_args(c_) and split_args(c_)[0] == Wv and c_.split('(')[0] not in ('deref', 'deref_mut', 'hadamard', 'scale_data', 'as_ref', 'as_mut')]
+                R.check(not between, 'correction-unmodified' + tag, 'the correction vector returned by the cones is modified before it is applied: %s' % [c_[:60] for c_ in between], f.loc())
             R.check(app == bool(val[k[0]]), 'reapply-iff-changed|%d%s' % (val[k[0]], tag), 'rectification %s with changed=%d' % ('applied' if app else 'not applied', val[k[0]]), f.loc())
             inv = [c for c in calls if c.startswith('scalarop_from(')]
             R.check(inv == ['scalarop_from(self.equilibration.dinv, <T as num_traits::Float>::recip, self.equilibration.d)',
